@@ -690,6 +690,10 @@ func (v Int128Value) BitwiseRightShift(context ValueStaticTypeContext, other Int
 		panic(&NegativeShiftError{})
 	}
 	if !o.BigInt.IsUint64() {
+		// All bits are shifted out: the result is the sign, i.e. floor(v / 2^n)
+		if v.BigInt.Sign() < 0 {
+			return NewInt128ValueFromInt64(context, -1)
+		}
 		return NewInt128ValueFromInt64(context, 0)
 	}
 
